@@ -258,6 +258,13 @@ def check_ks_events(tr):
             if v != n:
                 bad.append("slot %d: store of %d at line %d (skip_to_end must store the length %d)" % (k, v, i, n))
             ctr[k] = v
+        elif t[3] == "swp":
+            r, v = int(t[5]), int(t[6])
+            if r != ctr[k]:
+                bad.append("slot %d: swap at line %d read %d, the accesses before it leave %d" % (k, i, r, ctr[k]))
+            if v != n:
+                bad.append("slot %d: swap to %d at line %d (skip_to_end must store the length %d)" % (k, v, i, n))
+            ctr[k] = v
         elif t[3] == "ld":
             v = int(t[5])
             if v != ctr[k]:
@@ -510,7 +517,7 @@ def check_C07(tr):
                     locclk[loc] = list(clock[t])
                 else:
                     locclk.pop(loc, None)     # a relaxed store ends the release sequence
-            elif kind == "faa":
+            elif kind in ("faa", "swp"):
                 old = locclk.get(loc)
                 if ordn in ACQ and old is not None:
                     clock[t] = join(clock[t], old)
